@@ -60,9 +60,12 @@ Definition g_sym (s : sx) : sym_raw * Z :=
 Definition g_dyn (s : sx) : dyn_raw * Z :=
   let l := gL s in (mk_dyn (gbool (nthx 0 l)) (gI (nthx 1 l)) (g_pairs (nthx 2 l)), gI (nthx 3 l)).
 
+(* (kind cie table) *)
+Definition g_ent (s : sx) : Z * Z * Z := let l := gL s in (gI (nthx 0 l), gI (nthx 1 l), gI (nthx 2 l)).
+
 (* (info_size (units) abbrev_size (abbrevs) (lines) cfi ehcfi
     (stream_len shoff shnum shentsize shstr_base) (shdrs) (strs) (phoff phentsize) (phdrs)
-    (sym_base sym_entsize strtab_base) (syms) (dyn_base dyn_entsize) (dyns)) *)
+    (sym_base sym_entsize strtab_base) (syms) (dyn_base dyn_entsize) (dyns) (cfi entries) (eh cfi entries)) *)
 Definition g_file (s : sx) : file :=
   let l := gL s in
   let e := gL (nthx 7 l) in let ph := gL (nthx 10 l) in let sy := gL (nthx 12 l) in let dy := gL (nthx 14 l) in
@@ -72,7 +75,8 @@ Definition g_file (s : sx) : file :=
           (map g_shdr (gL (nthx 8 l))) (map g_kzz (gL (nthx 9 l)))
           (gI (nthx 0 ph)) (gI (nthx 1 ph)) (map g_phdr (gL (nthx 11 l)))
           (gI (nthx 0 sy)) (gI (nthx 1 sy)) (gI (nthx 2 sy)) (map g_sym (gL (nthx 13 l)))
-          (gI (nthx 0 dy)) (gI (nthx 1 dy)) (map g_dyn (gL (nthx 15 l))).
+          (gI (nthx 0 dy)) (gI (nthx 1 dy)) (map g_dyn (gL (nthx 15 l)))
+          (map g_ent (gL (nthx 16 l))) (map g_ent (gL (nthx 17 l))).
 
 (* ---------------------------------------------------------------- operations *)
 Open Scope string_scope.
@@ -92,6 +96,7 @@ Definition g_op (s : sx) : op :=
   else if k =? "LineProg" then LineProg a
   else if k =? "LineEntries" then LineEntries a
   else if k =? "CFI" then CFI (negb (a =? 0)%Z)
+  else if k =? "CFIDecoded" then CFIDecoded (negb (a =? 0)%Z) b
   else if k =? "NewIterCUs" then NewIterCUs na
   else if k =? "NewIterDIEs" then NewIterDIEs na b
   else if k =? "NewIterChildren" then NewIterChildren na b c
@@ -175,6 +180,12 @@ Definition frame_sx (s : state) (f : frame) : sx :=
   | FSymbols i n => SL [SS "symbols"; SI i; optZ_sx n]
   | FTags n fin => SL [SS "tags"; SI n; sx_bool fin]
   end.
+(* the CFI entries a client holds: which of them have a decoded table *)
+Definition held_sx (h : option (list (option Z))) : sx :=
+  match h with
+  | None => SS "none"
+  | Some l => SL (map (fun m => sx_bool (match m with Some _ => true | None => false end)) l)
+  end.
 Definition state_sx (s : state) : sx :=
   SL [sx_ints (cu_keys s);
       SL (map (unit_sx s) (cu_objs s));
@@ -185,7 +196,8 @@ Definition state_sx (s : state) : sx :=
       match e_symmap s with Some m => SL (map (fun kv => SL [SI (fst kv); sx_ints (snd kv)]) m) | None => SS "none" end;
       SI (e_numtags s);
       sx_ints (cur s);
-      SL (map (frame_sx s) (frames s))].
+      SL (map (frame_sx s) (frames s));
+      held_sx (fst (cfis s)); held_sx (snd (cfis s))].
 
 (* ---------------------------------------------------------------- running histories *)
 Record trace := mk_trace { t_state : state; t_afs : list aframe; t_n : nat;
